@@ -1,8 +1,5 @@
 import JrsVerif.Props.C01
-#print axioms JrsVerif.Bind.named_wf_iff
 #print axioms JrsVerif.Bind.parseCall_never_unreachable
 #print axioms JrsVerif.Bind.parseCall_assignment
 #print axioms JrsVerif.Bind.parseCall_ok_iff
-#print axioms JrsVerif.Bind.map_fst_zip_sublist
-#print axioms JrsVerif.Bind.indexOf?_spec
 #print axioms JrsVerif.Bind.call_style_invariant
